@@ -109,6 +109,20 @@ def correspondence(ctx):
         for c in CTORS:
             reqs.append(f"{c} {','.join(s)}")
             reals.append(real(c, s))
+    # every documented set PLUS ONE more recognised name (a second spelling of a coordinate it already has, a second coordinate of a group,
+    # a coordinate of a missing group): vector.obj and the object class of the resulting size, in every tier
+    seen_plus = set()
+    for s in documented_sets():
+        for extra in NAMES:
+            if extra in s:
+                continue
+            sp = tuple(sorted(s + (extra,)))
+            if sp in seen_plus:
+                continue
+            seen_plus.add(sp)
+            for c in ("obj", r.choice(CTORS[1:7])):
+                reqs.append(f"{c} {','.join(s + (extra,))}")
+                reals.append(real(c, s + (extra,)))
     for s in sets:
         for c in (CTORS if len(s) <= 3 or ctx.tier == "thorough" else ["obj", r.choice(CTORS[1:7]), r.choice(CTORS[7:])]):
             if not s and c != "obj":
